@@ -232,6 +232,10 @@ func genC12(r *Rng) *Plan {
 			comp := r.Pick("path", "query", "body", "header:cookie", "header:content-type", "header:x-forwarded-email", "header:x-forwarded-user", "header:x-forwarded-groups",
 				"header:authorization", "header:date", "header:x-unsigned", "header:accept", "header:x-forwarded-host", "header:gap-signature")
 			p.Steps = append(p.Steps, Step{Op: "net", Name: "proxy-up>" + rt.Backend[0], Sub: "corrupt", Str: comp, Arg: 1, Arg2: r.Intn(500)})
+		} else if r.Chance(1, 5) {
+			// the backend reads the request and the connection then dies under the answer (or is refused
+			// outright): whatever the proxy does next, nothing it sends may differ from what was signed
+			p.Steps = append(p.Steps, Step{Op: "net", Name: "proxy-up>" + rt.Backend[0], Sub: r.Pick("reset", "reset", "truncate", "refuse"), Arg: 1, Arg2: r.Pick0(0, 1, 17, 120)})
 		}
 		p.Steps = append(p.Steps, st)
 		p.Steps = append(p.Steps, Step{Op: "net", Name: "proxy-up>" + rt.Backend[0], Sub: "clear"})
@@ -288,7 +292,10 @@ func genC13(r *Rng) *Plan {
 	}
 	p := &Plan{Cfg: cfg, Users: stdUsers, Gen: fmt.Sprintf("routes-%d-%d-%v", nSimple, rw, ported)}
 	hosts := []string{"app1.sso.sim", "app2.sso.sim", "app3.sso.sim", "foo.dyn.sso.sim", "bar.dyn.sso.sim", "foo.x.sso.sim", "APP1.sso.sim", "app1.sso.sim:80", "app1.sso.sim.",
-		"nomatch.sso.sim", "app1.dyn.sso.sim", "xapp1.sso.sim", "app1.sso.sim.evil.sso.sim", "foo.dyn.sso.sim:8080", "dyn.sso.sim", "app1.sso.sim:8443", "app1.sso.sim:8443", "app1.sso.sim:9999"}
+		"nomatch.sso.sim", "app1.dyn.sso.sim", "xapp1.sso.sim", "app1.sso.sim.evil.sso.sim", "foo.dyn.sso.sim:8080", "dyn.sso.sim", "app1.sso.sim:8443", "app1.sso.sim:8443", "app1.sso.sim:9999",
+		// other spellings of names a rewrite pattern matches: patterns are matched as written, so these match nothing —
+		// whatever was requested before
+		"FOO.DYN.SSO.SIM", "foo.DYN.sso.sim", "bar.dyn.SSO.sim", "FOO.X.SSO.SIM"}
 	users := []string{"alice@example.com", "bob@example.com", "carol@other.org"}
 	n := r.Range(6, 20)
 	for i := 0; i < n; i++ {
@@ -461,6 +468,16 @@ func genC20(r *Rng) *Plan {
 			pair(func(s string) Step {
 				return extra(Step{Op: "authreq", B: "u-" + fmt.Sprint(s != "benign"), Endpoint: "sign_out", Sub: "good", Str: "https://app1." + RootDomain + "/?x=" + queryEscape(s)})
 			}, h)
+			if r.Chance(1, 2) {
+				// the confirmed sign-out while the provider cannot revoke: the page is rendered again, with a message
+				st := r.Pick0(503, 500, 400)
+				pair(func(s string) Step {
+					return Step{Op: "l3", Endpoint: "revoke", L3: []Answer{{Status: st, Body: `{"error":"temporarily_unavailable"}`, Tag: "revoke-fails"}}}
+				}, h)
+				pair(func(s string) Step {
+					return extra(Step{Op: "authreq", Method: "POST", B: "u-" + fmt.Sprint(s != "benign"), Endpoint: "sign_out", Sub: "good", Str: "https://app1." + RootDomain + "/?x=" + queryEscape(s)})
+				}, h)
+			}
 		case 5: // Host header
 			pair(func(s string) Step {
 				return extra(Step{Op: "get", B: "anon", Host: host, HostHdr: strings.NewReplacer(" ", "", "\n", "", "\t", "", "\x00", "").Replace(s), Target: "/"})
